@@ -21,13 +21,15 @@ use crate::p_escape::hex;
 use crate::rng::Rng;
 
 fn gen_line(r: &mut Rng) -> Vec<u8> {
-    match r.below(41) {
+    match r.below(46) {
         0 => b"foo (glob)".to_vec(), 1 => b"a (?)".to_vec(), 2 => b"x ()".to_vec(), 3 => b"[1]".to_vec(), 4 => b"[256]".to_vec(), 5 => b"$ x".to_vec(), 6 => b"> x".to_vec(),
         7 => b"```".to_vec(), 8 => b"````scrut".to_vec(), 9 => b"".to_vec(), 10 => b"  ".to_vec(), 11 => b"\t".to_vec(), 12 => b"# hash".to_vec(), 13 => b"a\tC:\\temp".to_vec(),
         14 => b"\x1b[1mbold\x1b[0m".to_vec(), 15 => vec![0, 1, 2], 16 => vec![0xff, 0xfe, b'x'], 17 => "é 😂".as_bytes().to_vec(), 18 => b"back\\slash".to_vec(),
         19 => b"trailing space ".to_vec(), 20 => b" (no-eol)".to_vec(), 21 => b"x (escaped)".to_vec(), 22 => b"---".to_vec(), 23 => b"a\rb".to_vec(), 24 => b"end (re+)".to_vec(), 25 => b"foo (bar)".to_vec(),
         26 => b" ```".to_vec(), 27 => b"   ````".to_vec(), 28 => b"C:\\temp\\new \x1b[1mbold".to_vec(), 29 => b"\\\x07".to_vec(), 30 => b"  $ indented".to_vec(),
         31 => b"main()".to_vec(), 32 => b"[ok]".to_vec(), 33 => "total\u{a0}(glob)".as_bytes().to_vec(), 34 => "x\u{3000}(?)".as_bytes().to_vec(), 35 => "sum\u{2003}(re+)".as_bytes().to_vec(), 36 => b"f(x) [1]".to_vec(),
+        // unprintable for the unicode escaper without being control characters: format (Cf), private use (Co), unassigned (Cn)
+        37 => "prompt\u{200b}".as_bytes().to_vec(), 38 => "\u{feff}[1, 2]".as_bytes().to_vec(), 39 => "soft\u{ad}hyphen (x)".as_bytes().to_vec(), 40 => "\u{e000}".as_bytes().to_vec(), 41 => "n\u{378}(a)".as_bytes().to_vec(),
         _ => { let n = r.range(1, 6); (0..n).map(|_| b'a' + r.below(26) as u8).collect() }
     }
 }
